@@ -99,6 +99,14 @@ fn policy_name(p: &StateRewindPolicy) -> String {
     }
 }
 
+fn retention(p: &StateRewindPolicy) -> u64 {
+    match p {
+        StateRewindPolicy::NoRewind => 0,
+        StateRewindPolicy::RewindRange { size } => size.get(),
+        StateRewindPolicy::RewindFullRange => u64::MAX,
+    }
+}
+
 fn pick_policy(ctx: &mut Ctx) -> StateRewindPolicy {
     match ctx.tape.weighted(&[3, 2, 5]) {
         0 => StateRewindPolicy::RewindFullRange,
@@ -120,6 +128,7 @@ struct Hist {
     /// true once this backend ran a height-carrying commit under NoRewind after having recorded
     /// history (the situation of candidate defect F3).
     had_norewind_gap: bool,
+    has_heights: bool,
 }
 
 impl Hist {
@@ -243,6 +252,7 @@ pub fn run(ctx: &mut Ctx) {
             policy,
             name: format!("hist{i}"),
             had_norewind_gap: false,
+            has_heights: false,
         };
         h.open();
         hists.push(h);
@@ -366,11 +376,8 @@ pub fn run(ctx: &mut Ctx) {
                     ctx.check("C11", "commit-failed:historical", r.is_ok(), || {
                         format!("{} {r:?}", h.name)
                     });
-                    if height.is_some()
-                        && h.policy == StateRewindPolicy::NoRewind
-                        && !h.had_norewind_gap
-                    {
-                        h.had_norewind_gap = true;
+                    if height.is_some() {
+                        h.has_heights = true;
                     }
                 }
             }
@@ -388,6 +395,12 @@ pub fn run(ctx: &mut Ctx) {
                 ctx.fault("restart");
                 if old != h.policy {
                     ctx.fault("restart_policy_change");
+                    // a restart that keeps less history than before leaves stale / gapped
+                    // history behind (known finding): views of older heights may be wrong
+                    if h.has_heights && retention(&h.policy) < retention(&old) {
+                        h.had_norewind_gap = true;
+                        ctx.fault("restart_policy_shrunk");
+                    }
                 }
                 ctx.op(format!(
                     "restart {} {} -> {}",
@@ -433,7 +446,7 @@ pub fn run(ctx: &mut Ctx) {
                     if let Some(prev) = prev {
                         for (name, _, after) in &results {
                             let gap = hists.iter().find(|h| &h.name == name).unwrap().had_norewind_gap;
-                            let class = if gap { "rollback-wrong-state:after-norewind-period" } else { "rollback-wrong-state" };
+                            let class = if gap { "rollback-wrong-state:after-shrinking-policy-change" } else { "rollback-wrong-state" };
                             ctx.check("C12", class, *after == flatten(&prev, &cols), || {
                                 format!("{name}: state after rollback of {l} differs from the state after block {}", l - 1)
                             });
@@ -639,7 +652,8 @@ pub fn run(ctx: &mut Ctx) {
                             ctx.check(
                                 "C12",
                                 "view-error-not-no-history",
-                                msg.contains("doesn't have history"),
+                                msg.contains("doesn't have history")
+                                    || msg.contains("NoHistoryForRequestedHeight"),
                                 || format!("{} view_at({hgt}) failed with {msg}", h.name),
                             );
                             ctx.probe("view_no_history");
@@ -658,7 +672,7 @@ pub fn run(ctx: &mut Ctx) {
                             };
                             ctx.probe("view_checked");
                             let class = if h.had_norewind_gap {
-                                "view-wrong-state:after-norewind-period"
+                                "view-wrong-state:after-shrinking-policy-change"
                             } else {
                                 "view-wrong-state"
                             };
